@@ -36,6 +36,10 @@ def run(ctx):
     except RuntimeError as e:
         built["mixed:base"] = e
     cfgs = list(cfgs) + ["mixed:base"]
+    # subscription events ("... subscription event"): faults while an event is delivered stay in that event
+    sb = gensrv.build_matrix(ctx, "execsub", ["base"])
+    built["execsub:base"] = sb["base"]
+    cfgs = list(cfgs) + ["execsub:base"]
     dist = Counter()
     nontriv = set()
     total = 0
@@ -48,16 +52,25 @@ def run(ctx):
             ctx.violation({"kind": "generated-server-does-not-build", "config": cfg, "detail": str(b)[-3000:],
                            "shape": {"config": cfg, "build": "fail"}})
             continue
-        schema = c01.schema_of(b)
-        lines = c01.run_corpus(ctx, b, "C04")
-        lines += c01.run_config(ctx, b, n_rand, ctx.seed, "c04")           # random multi-fault plans incl. panics
-        rc, so, se = vf.sh([b, "-mode", "faults", "-n", str(n_ops), "-seed", str(ctx.seed)], timeout=2400)
-        if rc != 0:
-            # the process died: a panic escaped every recover
-            ctx.violation({"kind": "crash", "config": cfg, "stderr": se[-4000:], "shape": {"crash": True},
-                           "replay": "%s -mode faults -n %d -seed %d" % (b, n_ops, ctx.seed)})
-            continue
-        lines += [l for l in so.split("\n") if l]
+        if cfg.startswith("execsub:"):
+            schema = c01.schema_of(b, "subschema")
+            try:
+                lines = c01.run_config(ctx, b, n_rand, ctx.seed, "sub")    # every event of every subscription, 4% panics
+            except RuntimeError as e:
+                ctx.violation({"kind": "crash", "config": cfg, "stderr": str(e)[-4000:], "shape": {"crash": True},
+                               "replay": "%s -mode gen -profile sub -n %d -seed %d" % (b, n_rand, ctx.seed)})
+                continue
+        else:
+            schema = c01.schema_of(b)
+            lines = c01.run_corpus(ctx, b, "C04")
+            lines += c01.run_config(ctx, b, n_rand, ctx.seed, "c04")           # random multi-fault plans incl. panics
+            rc, so, se = vf.sh([b, "-mode", "faults", "-n", str(n_ops), "-seed", str(ctx.seed)], timeout=2400)
+            if rc != 0:
+                # the process died: a panic escaped every recover
+                ctx.violation({"kind": "crash", "config": cfg, "stderr": se[-4000:], "shape": {"crash": True},
+                               "replay": "%s -mode faults -n %d -seed %d" % (b, n_ops, ctx.seed)})
+                continue
+            lines += [l for l in so.split("\n") if l]
         model = ctx.driver("c04", [schema] + lines)
         ok = 0
         for l, m in zip(lines, model):
@@ -66,6 +79,9 @@ def run(ctx):
             if r.get("gateErrors"):
                 continue
             tags = c01.classify(r)
+            if c01.subscribe_failed(r) is not None:
+                # the stream could not be created: a request error, judged by C01
+                continue
             if r.get("fault"):
                 tags.add("single-fault:" + r["faultKind"] + (":directive" if "@" in r["fault"] else ":resolver"))
             if r["recovers"]:
